@@ -635,6 +635,13 @@ def _semantic_match(extra, remaining):
                     if const[0] == 'c' and subj[0] != 'c':
                         excl.setdefault(subj, []).append((a, const))
         excl = [v for v in excl.values() if len(v) > 1 and len({repr(c) for _, c in v}) == len(v)]
+        # None is an instance of nothing one tests for:  x is None  excludes  isinstance(x, T)
+        for a in atoms:
+            if a[0] == 'cmp' and a[1] == 'is' and T.NONE in (a[2], a[3]):
+                subj = a[3] if a[2] == T.NONE else a[2]
+                for b in atoms:
+                    if b[0] == 'call' and b[1] == T.G('isinstance') and len(b[2]) == 2 and b[2][0] == subj:
+                        excl.append([(a, None), (b, None)])
         same = False
         if len(atoms) <= 14:
             same = True
